@@ -2,4 +2,4 @@
 From Coq Require Import Extraction ExtrOcamlBasic ExtrOcamlString.
 From LC Require Import AnalysisDefs AnalysisSpec.
 Extraction "analysis_model.ml" analyse analyse_ext build loop sweep check finish analyse_asts check_inits loop_fuel
-  wf_failures wf classification first_pass first_pass_complete.
+  wf_failures wf deps_failing classification first_pass first_pass_complete.
